@@ -543,6 +543,12 @@ func modeBuild(seed uint64, n int, out *sx.Out) {
 		}
 		s := genSpec(r)
 		line := s.line(r)
+		// Parse / Build / ToCommandLine must be functions of their input: half of the rules are preceded by a near copy
+		if i%2 == 1 {
+			if pb, perr := buildLine(line + " -k primed"); perr == nil {
+				rule.ToCommandLine(rule.WireFormat(pb), false)
+			}
+		}
 		b, err := buildLine(line)
 		if err == nil {
 			accepted++
